@@ -10,6 +10,7 @@ use rt::bb::Fault;
 use sylvia::cw_std::Coin;
 
 pub mod f1;
+pub mod f2;
 pub mod f3;
 pub mod twin;
 
